@@ -1863,11 +1863,16 @@ class Dist(object):
                 for nm, v in zip(names, a):
                     kw[nm] = v
                 ps = self._params(kw)
-                if random_state is not None:
-                    State.ctx.event('rng_foreign', 'rvs(random_state=...)', State.where)
-                    raise Unsupported('rvs with an explicit random_state')
                 n = size if size is not None else 1
-                g = RNG.advance('rvs.' + self.name, [n])
+                if isinstance(random_state, RandomStateObj):
+                    # scipy draws from the given RandomState IN PLACE (the caller's object is advanced)
+                    g = random_state.state
+                    random_state.state = ir.uf('rng.next', [g, ir.const('rvs.' + self.name), to_term(n)], 'U')
+                    State.ctx.event('rng_object', ('rvs.' + self.name, g), State.where)
+                elif random_state is not None:
+                    raise Unsupported('rvs with random_state=%r' % (random_state,))
+                else:
+                    g = RNG.advance('rvs.' + self.name, [n])
                 t = ir.uf('rvs.%s.elem' % self.name, [g] + ps + [to_term(n), values.IDX])
                 return Lane(t, n) if size is not None else Sym(t)
             return rvs
